@@ -8,13 +8,13 @@ Fixpoint count_true (bs : list bool) : nat :=
 (* adjacent elements are at least p apart *)
 Fixpoint spaced (p : Z) (l : list Z) : Prop :=
   match l with
-  | a :: ((b :: _) as r) => b - a >= p /\ spaced p r
+  | a :: ((b :: _) as r) => (p <= 0 \/ b - a >= p) /\ spaced p r
   | _ => True
   end.
 
 Definition lastz (l : list Z) : Z := last l 0.
 
-Lemma spaced_snoc p l x : spaced p l -> (l = [] \/ x - lastz l >= p) -> spaced p (l ++ [x]).
+Lemma spaced_snoc p l x : spaced p l -> (l = [] \/ p <= 0 \/ x - lastz l >= p) -> spaced p (l ++ [x]).
 Proof.
   induction l as [|a r IH]; simpl; intros S H; [exact I|].
   destruct r as [|b r'].
@@ -30,13 +30,13 @@ Proof. unfold lastz. apply last_last. Qed.
 (* ---------- one step ---------- *)
 Lemma can_trigger_true l s ts :
   can_trigger l s ts = true <->
-  (fc l = -1 \/ cnt s < fc l) /\ in_window l ts = true /\ (lastf s = 0 \/ ts - lastf s >= fp l * 1000000).
+  (fc l = -1 \/ cnt s < fc l) /\ in_window l ts = true /\ (lastf s = 0 \/ fp l * 1000000 <= 0 \/ ts - lastf s >= fp l * 1000000).
 Proof.
   unfold can_trigger.
   destruct (fc l =? -1) eqn:E1; destruct (fc l <=? cnt s) eqn:E2; destruct (in_window l ts) eqn:E3;
-    destruct (lastf s =? 0) eqn:E4; destruct (ts - lastf s <? fp l * 1000000) eqn:E5; simpl;
+    destruct (lastf s =? 0) eqn:E4; destruct (0 <? fp l * 1000000) eqn:E6; destruct (ts - lastf s <? fp l * 1000000) eqn:E5; simpl;
     rewrite ?Z.eqb_eq, ?Z.eqb_neq, ?Z.leb_le, ?Z.leb_gt, ?Z.ltb_lt, ?Z.ltb_ge in *;
-    split; try discriminate; try (intros _; repeat split; (lia || reflexivity || (left; lia) || (right; lia)));
+    split; try discriminate; try (intros _; repeat split; (lia || reflexivity || (left; lia) || (right; left; lia) || (right; right; lia)));
     try (intros (A & B & C); try discriminate; lia).
 Qed.
 
@@ -119,7 +119,7 @@ Qed.
 (* liveness of one hit, and "a rejected hit uses no budget" *)
 Theorem step_live l s h :
   (fc l = -1 \/ cnt s < fc l) -> in_window l (h_ts h) = true ->
-  (lastf s = 0 \/ h_ts h - lastf s >= fp l * 1000000) -> h_cond h = true ->
+  (lastf s = 0 \/ fp l * 1000000 <= 0 \/ h_ts h - lastf s >= fp l * 1000000) -> h_cond h = true ->
   step l s h = (fire s (h_ts h), true).
 Proof.
   intros A B C D. unfold step.
